@@ -63,27 +63,64 @@ def _parse(arg: str) -> Tuple[str, ...]:
   # TODO: Once we're on Python 3.9, use: arg = arg.removeprefix(':')
   if arg.startswith(':'):
     arg = arg[1:]
-  # The rest of the algorithm is that we split on all colons, both
-  # escaped and unescaped.  Then, we walk through the list of fragments and
-  # join back together the colons that were preceeded by an escape character,
-  # dropping the escape character as we go.
-  fragments = arg.split(':')
+  # The rest of the algorithm walks through the string.  A colon preceded by an
+  # odd number of backslashes is an escaped (literal) colon; a colon preceded
+  # by an even number is a separator.  Backslashes directly in front of a colon
+  # (or at the end of the string) come in escaped pairs; anywhere else a
+  # backslash is an ordinary character.
   output = []
-  join = False
-  for frag in fragments:
-    if join and frag and frag[-1] == '\\':
-      output[-1] += ':' + frag[:-1]
-      join = True
-    elif join:  # Doesn't end in an escape character.
-      output[-1] += ':' + frag
-      join = False
-    elif frag and frag[-1] == '\\':  # Don't join to previous.
-      output.append(frag[:-1])
-      join = True
-    else:  # Don't join to previous and doesn't end in an escape.
-      output.append(frag)
-      join = False
+  current = []
+  i = 0
+  while i < len(arg):
+    if arg[i] == '\\':
+      j = i
+      while j < len(arg) and arg[j] == '\\':
+        j += 1
+      run = j - i
+      if j < len(arg) and arg[j] == ':':
+        current.append('\\' * (run // 2))
+        if run % 2:
+          current.append(':')  # Escaped colon.
+          j += 1
+      elif j == len(arg):
+        current.append('\\' * ((run + 1) // 2))
+      else:
+        current.append('\\' * run)
+      i = j
+    elif arg[i] == ':':
+      output.append(''.join(current))
+      current = []
+      i += 1
+    else:
+      current.append(arg[i])
+      i += 1
+  output.append(''.join(current))
   return tuple(output)
+
+
+def _escape_component(component: str) -> str:
+  """Escapes colons, and backslashes that would otherwise escape a colon."""
+  out = []
+  i = 0
+  while i < len(component):
+    if component[i] == '\\':
+      j = i
+      while j < len(component) and component[j] == '\\':
+        j += 1
+      run = j - i
+      if j == len(component) or component[j] == ':':
+        # These backslashes end up directly in front of a colon (a separator or
+        # an escaped colon) or at the end of the string: double them.
+        run *= 2
+      out.append('\\' * run)
+      i = j
+    elif component[i] == ':':
+      out.append('\\:')
+      i += 1
+    else:
+      out.append(component[i])
+      i += 1
+  return ''.join(out)
 
 
 @attr.frozen(eq=True, order=True, hash=True, auto_attribs=True, init=False)
@@ -141,8 +178,6 @@ class Namespace(abc.Sequence):
     arg = tuple(arg)
     self.__attrs_init__(as_tuple=arg)
 
-  _ns_repr_table = str.maketrans({':': r'\:'})
-
   @classmethod
   def decode(cls, s: str) -> 'Namespace':
     r"""Decode a string into a Namespace.
@@ -164,11 +199,10 @@ class Namespace(abc.Sequence):
     Given a Namespace x, Namespace.decode(x.encode()) == x.
 
     Returns:
-      Colons are escaped, then Namespace components are joined by colons.
+      Colons (and backslashes directly in front of a colon or at the end of a
+      component) are escaped, then Namespace components are joined by colons.
     """
-    return ''.join(
-        [':' + c.translate(self._ns_repr_table) for c in self._as_tuple]
-    )
+    return ''.join([':' + _escape_component(c) for c in self._as_tuple])
 
   def __len__(self) -> int:
     """Number of components (elements of the tuple form)."""
